@@ -1,6 +1,8 @@
 import AtreeModel.StorageOps
 import AtreeProofs.StorageLemmas
 import AtreeProofs.CommitLemmas
+import AtreeProofs.StorageLemmas2
+import AtreeProofs.StorageExample2
 /-
   C08 — The read cache is transparent (storage level, value-level model; clients re-fetch their
   handles after a cache drop — see DESIGN.md for the pointer-aliasing part that is exercised by the
@@ -50,12 +52,217 @@ def NoTemp (ops : List (Op σ)) : Prop :=
     | .genID a => a ≠ 0
     | _ => True
 
+/-! ### Simulation between two runs of the same client history (helpers) -/
+
+/-- no pending change under the temporary address -/
+def NoTempDeltas (s : St σ β) : Prop := ∀ id, id.isTemp = true → AList.find? s.deltas id = none
+
+/-- What maintenance actions (and reads) preserve. -/
+structure Keeps (s s' : St σ β) : Prop where
+  inv : Inv c s'
+  view : ∀ id, s'.view c id = s.view c id
+  target : ∀ id, target c s' id = target c s id
+  alloc : s'.alloc = s.alloc
+  noTemp : NoTempDeltas s'
+
+theorem applyMaint_commit_eq (s : St σ β) (kind : CommitKind) (mo dlo : List SlabID) :
+    applyMaint c s (.commit kind mo dlo) = (commitW c kind (fun _ => false) mo dlo s).st := by
+  cases kind <;> rfl
+
+theorem noEnc_of_total (hEnc : ∀ v : σ, (c.enc v).isSome) (s : St σ β) : NoEncodeFailure c s :=
+  fun _ v _ => hEnc v
+
+theorem applyMaint_keeps (hc : RoundTrip c) (hEnc : ∀ v : σ, (c.enc v).isSome) (s : St σ β)
+    (hI : Inv c s) (hnt : NoTempDeltas s) (m : Maint) : Keeps c s (applyMaint c s m) := by
+  cases m with
+  | commit kind mo dlo =>
+    rw [applyMaint_commit_eq]
+    obtain ⟨h1, h2, _⟩ := commitW_spec c hc kind (fun _ => false) mo dlo s hI
+    exact ⟨h1, h2.view, h2.target, (commitW_aux c kind _ mo dlo s).1,
+      fun id ht => (h2.temp id ht).trans (hnt id ht)⟩
+  | dropCache =>
+    exact ⟨inv_dropCache c s hI, view_dropCache c s hI, fun _ => rfl, rfl, hnt⟩
+  | commitAndReopen =>
+    obtain ⟨h1, h2, _⟩ := commitW_spec c hc .det (fun _ => false) [] [] s hI
+    obtain ⟨_, g2, g3⟩ := commitW_complete c hc .det (fun _ => false) (fun _ => rfl) [] [] s hI
+      (noEnc_of_total c hEnc s)
+    have hres : applyMaint c s .commitAndReopen =
+        { (St.fresh (commitW c .det (fun _ => false) [] [] s).st.base
+            (commitW c .det (fun _ => false) [] [] s).st.alloc : St σ β) with
+          tempIx := (commitW c .det (fun _ => false) [] [] s).st.tempIx } := rfl
+    have halloc := (commitW_aux c .det (fun _ => false) [] [] s).1
+    generalize (commitW c .det (fun _ => false) [] [] s).st = r at h1 h2 g2 g3 hres halloc
+    rw [hres]
+    have hall : ∀ id, AList.find? r.deltas id = none := by
+      intro id
+      cases ht : id.isTemp with
+      | true => exact (h2.temp id ht).trans (hnt id ht)
+      | false => exact g2 id ht
+    refine ⟨inv_setAux c _ (inv_fresh c r h1) r.tempIx r.alloc, ?_, ?_, ?_, fun _ _ => rfl⟩
+    · intro id
+      rw [← h2.view id, view_of_not_pending c r h1 id (hall id)]
+      simp [St.view, St.fresh, St.committed]
+    · intro id
+      rw [← g3 id]
+      simp [target, St.fresh]
+    · exact halloc
+
+theorem Keeps.refl (s : St σ β) (hI : Inv c s) (hnt : NoTempDeltas s) : Keeps c s s :=
+  ⟨hI, fun _ => rfl, fun _ => rfl, rfl, hnt⟩
+
+theorem foldl_applyMaint_keeps (hc : RoundTrip c) (hEnc : ∀ v : σ, (c.enc v).isSome)
+    (ms : List Maint) (s : St σ β) (hI : Inv c s) (hnt : NoTempDeltas s) :
+    Keeps c s (ms.foldl (applyMaint c) s) := by
+  induction ms generalizing s with
+  | nil => exact Keeps.refl c s hI hnt
+  | cons m ms ih =>
+    have h1 := applyMaint_keeps c hc hEnc s hI hnt m
+    have h2 := ih (applyMaint c s m) h1.inv h1.noTemp
+    exact ⟨h2.inv, fun id => (h2.view id).trans (h1.view id),
+      fun id => (h2.target id).trans (h1.target id), h2.alloc.trans h1.alloc, h2.noTemp⟩
+
+/-- The simulation relation between the two runs. -/
+structure Sim (s1 s2 : St σ β) : Prop where
+  inv1 : Inv c s1
+  inv2 : Inv c s2
+  nt1 : NoTempDeltas s1
+  nt2 : NoTempDeltas s2
+  view : ∀ id, s1.view c id = s2.view c id
+  target : ∀ id, target c s1 id = target c s2 id
+  alloc : ∀ a, AList.find? s1.alloc a = AList.find? s2.alloc a
+
+theorem Sim.init : Sim c (St.init : St σ β) (St.init : St σ β) :=
+  ⟨inv_init c, inv_init c, fun _ _ => rfl, fun _ _ => rfl, fun _ => rfl, fun _ => rfl, fun _ => rfl⟩
+
+theorem Sim.of_keeps {s1 s2 s1' s2' : St σ β} (h : Sim c s1 s2) (k1 : Keeps c s1 s1')
+    (k2 : Keeps c s2 s2') : Sim c s1' s2' :=
+  ⟨k1.inv, k2.inv, k1.noTemp, k2.noTemp,
+    fun id => ((k1.view id).trans (h.view id)).trans (k2.view id).symm,
+    fun id => ((k1.target id).trans (h.target id)).trans (k2.target id).symm,
+    fun a => by rw [k1.alloc, k2.alloc]; exact h.alloc a⟩
+
+theorem Sim.insertDelta {s1 s2 : St σ β} (h : Sim c s1 s2) (id : SlabID) (hid : id.isTemp = false)
+    (ov : Option σ) :
+    Sim c { s1 with deltas := AList.insert s1.deltas id ov }
+          { s2 with deltas := AList.insert s2.deltas id ov } := by
+  have hnt : ∀ (s : St σ β), NoTempDeltas s →
+      NoTempDeltas ({ s with deltas := AList.insert s.deltas id ov } : St σ β) := by
+    intro s hs j hj
+    have hne : ¬ id = j := fun e => by rw [e, hj] at hid; cases hid
+    show AList.find? (AList.insert s.deltas id ov) j = none
+    rw [AList.find?_insert]
+    simp only [hne, if_false]
+    exact hs j hj
+  refine ⟨inv_setDeltas c s1 h.inv1 _ (AList.nodup_keys_insert _ _ _ h.inv1.deltasNodup),
+    inv_setDeltas c s2 h.inv2 _ (AList.nodup_keys_insert _ _ _ h.inv2.deltasNodup),
+    hnt s1 h.nt1, hnt s2 h.nt2, ?_, ?_, h.alloc⟩
+  · intro j
+    rw [view_insertDelta, view_insertDelta, h.view j]
+  · intro j
+    rw [target_insertDelta c s1 id hid, target_insertDelta c s2 id hid, h.target j]
+
+theorem not_undef_of_owned (id : SlabID) (hid : id.isTemp = false) : id ≠ SlabID.undef := by
+  intro e
+  rw [e, SlabID.isTemp_undef] at hid
+  cases hid
+
+/-- A read keeps everything. -/
+theorem retrieve_keeps (s : St σ β) (hI : Inv c s) (hnt : NoTempDeltas s) (id : SlabID) :
+    ∃ s', St.step c s (.retrieve id) = (s', .slab (s.view c id)) ∧ Keeps c s s' := by
+  obtain ⟨s', h1, h2, h3, h4, h5⟩ := retrieve_spec c s hI id
+  refine ⟨s', by simp [St.step, h1], h2, fun j => by rw [h3], target_congr c s s' h4 h5,
+    (retrieve_frame c s s' id _ h1).2.2.1, ?_⟩
+  intro j hj
+  rw [h4]
+  exact hnt j hj
+
+/-- One client operation from related states: same observation, related states. -/
+theorem step_sim {s1 s2 : St σ β} (h : Sim c s1 s2) (op : Op σ)
+    (hnt : match op with
+      | .store id _ => id.isTemp = false
+      | .remove id => id.isTemp = false
+      | .genID a => a ≠ 0
+      | _ => True) (hcl : clientOp op = true) :
+    (St.step c s1 op).2 = (St.step c s2 op).2 ∧ Sim c (St.step c s1 op).1 (St.step c s2 op).1 := by
+  cases op with
+  | store id v =>
+    have hu := not_undef_of_owned id hnt
+    simp only [St.step, St.store, hu, if_false]
+    exact ⟨by trivial, h.insertDelta c id hnt (some v)⟩
+  | remove id =>
+    have hu := not_undef_of_owned id hnt
+    simp only [St.step, St.remove, hu, if_false]
+    exact ⟨by trivial, h.insertDelta c id hnt none⟩
+  | retrieve id =>
+    obtain ⟨t1, e1, k1⟩ := retrieve_keeps c s1 h.inv1 h.nt1 id
+    obtain ⟨t2, e2, k2⟩ := retrieve_keeps c s2 h.inv2 h.nt2 id
+    rw [e1, e2]
+    exact ⟨by rw [h.view id], h.of_keeps c k1 k2⟩
+  | genID a =>
+    have ha : a ≠ 0 := hnt
+    simp only [St.step, St.generateSlabID, ha, if_false]
+    refine ⟨by rw [h.alloc a], inv_setAux c s1 h.inv1 s1.tempIx _, inv_setAux c s2 h.inv2 s2.tempIx _,
+      h.nt1, h.nt2, h.view, h.target, ?_⟩
+    intro b
+    show AList.find? (AList.insert s1.alloc a _) b = AList.find? (AList.insert s2.alloc a _) b
+    rw [AList.find?_insert, AList.find?_insert, h.alloc a, h.alloc b]
+  | retrieveIfLoaded id => simp [clientOp] at hcl
+  | retrieveIgnoringDeltas id ch => simp [clientOp] at hcl
+  | commit kind faults mo dlo => simp [clientOp] at hcl
+  | dropDeltas => simp [clientOp] at hcl
+  | dropCache => simp [clientOp] at hcl
+  | preload ids => simp [clientOp] at hcl
+  | recreate => simp [clientOp] at hcl
+
+theorem runWith_cons (s : St σ β) (op : Op σ) (ms : List Maint) (rest : List (Op σ × List Maint)) :
+    runWith c s ((op, ms) :: rest) =
+      ((runWith c (St.step c (ms.foldl (applyMaint c) s) op).1 rest).1,
+       (St.step c (ms.foldl (applyMaint c) s) op).2 ::
+         (runWith c (St.step c (ms.foldl (applyMaint c) s) op).1 rest).2) := rfl
+
+/-- The two runs stay related and produce the same observations. -/
+theorem runWith_sim (hc : RoundTrip c) (hEnc : ∀ v : σ, (c.enc v).isSome)
+    (ops : List (Op σ)) (hcl : ∀ op ∈ ops, clientOp op = true) (hnt : NoTemp ops)
+    (sched1 sched2 : List (List Maint)) (h1 : sched1.length = ops.length) (h2 : sched2.length = ops.length)
+    (s1 s2 : St σ β) (h : Sim c s1 s2) :
+    (runWith c s1 (ops.zip sched1)).2 = (runWith c s2 (ops.zip sched2)).2 ∧
+    Sim c (runWith c s1 (ops.zip sched1)).1 (runWith c s2 (ops.zip sched2)).1 := by
+  induction ops generalizing sched1 sched2 s1 s2 with
+  | nil => exact ⟨rfl, h⟩
+  | cons op ops ih =>
+    cases sched1 with
+    | nil => simp at h1
+    | cons ms1 sched1 =>
+      cases sched2 with
+      | nil => simp at h2
+      | cons ms2 sched2 =>
+        simp only [List.length_cons, Nat.add_right_cancel_iff] at h1 h2
+        rw [List.zip_cons_cons, List.zip_cons_cons, runWith_cons, runWith_cons]
+        have k1 := foldl_applyMaint_keeps c hc hEnc ms1 s1 h.inv1 h.nt1
+        have k2 := foldl_applyMaint_keeps c hc hEnc ms2 s2 h.inv2 h.nt2
+        have hsim := h.of_keeps c k1 k2
+        obtain ⟨hobs, hsim'⟩ := step_sim c hsim op (hnt op (List.mem_cons_self ..))
+          (hcl op (List.mem_cons_self ..))
+        obtain ⟨g1, g2⟩ := ih (fun o ho => hcl o (List.mem_cons_of_mem _ ho))
+          (fun o ho => hnt o (List.mem_cons_of_mem _ ho)) sched1 sched2 h1 h2 _ _ hsim'
+        dsimp only
+        exact ⟨by rw [hobs, g1], g2⟩
+
 /-- Whether a slab is served from the write set, the cache or freshly decoded from the ledger never
     changes what is read. -/
 theorem reload_is_identity (hc : RoundTrip c) (s : St σ β) (h : Inv c s) (hne : NoEncodeFailure c s)
     (m : Maint) (id : SlabID) (hown : id.isTemp = false) :
     (applyMaint c s m).view c id = s.view c id := by
-  sorry
+  cases m with
+  | commit kind mo dlo =>
+    rw [applyMaint_commit_eq]
+    exact (commitW_spec c hc kind (fun _ => false) mo dlo s h).2.1.view id
+  | dropCache => exact view_dropCache c s h id
+  | commitAndReopen =>
+    obtain ⟨h1, h2, _⟩ := commitW_spec c hc .det (fun _ => false) [] [] s h
+    obtain ⟨_, g2, _⟩ := commitW_complete c hc .det (fun _ => false) (fun _ => rfl) [] [] s h hne
+    rw [← h2.committed_eq_view h1 g2 id hown]
+    simp [applyMaint, St.view, St.fresh, St.committed, commitW]
 
 /-- Schedule independence of outcomes: the same client history under ANY two maintenance
     schedules yields the same observations and the same final view. -/
@@ -65,7 +272,9 @@ theorem schedule_independent_outcomes (hc : RoundTrip c) (hEnc : ∀ v : σ, (c.
     let r1 := runWith c (St.init : St σ β) (ops.zip sched1)
     let r2 := runWith c (St.init : St σ β) (ops.zip sched2)
     r1.2 = r2.2 ∧ (∀ id, r1.1.view c id = r2.1.view c id) := by
-  sorry
+  intro r1 r2
+  obtain ⟨g1, g2⟩ := runWith_sim c hc hEnc ops hcl hnt sched1 sched2 h1 h2 _ _ (Sim.init c)
+  exact ⟨g1, g2.view⟩
 
 /-- … and after a final commit the ledger registers are identical (as a function of the
     identifier) under all such schedules. -/
@@ -75,6 +284,91 @@ theorem schedule_independent_ledger (hc : RoundTrip c) (hEnc : ∀ v : σ, (c.en
     let f1 := ((runWith c (St.init : St σ β) (ops.zip sched1)).1.fastCommit c (fun _ => false)).st
     let f2 := ((runWith c (St.init : St σ β) (ops.zip sched2)).1.fastCommit c (fun _ => false)).st
     ∀ id, AList.find? f1.base id = AList.find? f2.base id := by
-  sorry
+  intro f1 f2 id
+  obtain ⟨_, g2⟩ := runWith_sim c hc hEnc ops hcl hnt sched1 sched2 h1 h2 _ _ (Sim.init c)
+  obtain ⟨_, _, a3⟩ := commitW_complete c hc .det (fun _ => false) (fun _ => rfl) [] []
+    (runWith c (St.init : St σ β) (ops.zip sched1)).1 g2.inv1 (noEnc_of_total c hEnc _)
+  obtain ⟨_, _, b3⟩ := commitW_complete c hc .det (fun _ => false) (fun _ => rfl) [] []
+    (runWith c (St.init : St σ β) (ops.zip sched2)).1 g2.inv2 (noEnc_of_total c hEnc _)
+  show AList.find? (commitW c .det (fun _ => false) [] []
+      (runWith c (St.init : St σ β) (ops.zip sched1)).1).st.base id =
+    AList.find? (commitW c .det (fun _ => false) [] []
+      (runWith c (St.init : St σ β) (ops.zip sched2)).1).st.base id
+  rw [a3 id, b3 id, g2.target id]
+
+/-! ### Non-vacuity
+
+A 5-operation client history is run under two different maintenance schedules (none at all, versus
+cache drops, commits of both kinds and reopen-from-ledger between the operations); the theorems are
+instantiated on it and compared with direct evaluation of the model. -/
+section NonVacuity
+open Atree.Example
+
+deriving instance DecidableEq for Obs
+
+def exHist : List (Op Nat) :=
+  [.genID 1, .store ⟨1, 1⟩ 5, .store ⟨1, 2⟩ 6, .remove ⟨1, 2⟩, .retrieve ⟨1, 1⟩]
+
+/-- no maintenance at all -/
+def schedA : List (List Maint) := [[], [], [], [], []]
+/-- maintenance before every operation -/
+def schedB : List (List Maint) :=
+  [[.dropCache], [.commit .det [] []], [.commitAndReopen], [.commit .nondet [⟨1, 2⟩] [], .dropCache],
+   [.commitAndReopen, .dropCache]]
+
+theorem natEnc : ∀ v : Nat, (natCodec.enc v).isSome := fun _ => rfl
+
+example : (∀ op ∈ exHist, clientOp op = true) ∧ schedA.length = exHist.length ∧
+    schedB.length = exHist.length := by decide
+theorem exHist_noTemp : NoTemp exHist := by
+  intro op hop
+  simp only [exHist, List.mem_cons, List.not_mem_nil, or_false] at hop
+  rcases hop with rfl | rfl | rfl | rfl | rfl <;> simp [SlabID.isTemp]
+
+/-- The two runs are internally very different: under `schedA` nothing ever reaches the ledger and
+    everything is pending, under `schedB` the write set is empty and the ledger holds `1.1`. -/
+example :
+    let r1 := runWith natCodec (St.init : St Nat Nat) (exHist.zip schedA)
+    let r2 := runWith natCodec (St.init : St Nat Nat) (exHist.zip schedB)
+    r1.1.base = [] ∧ r1.1.deltas = [(⟨1, 2⟩, none), (⟨1, 1⟩, some 5)] ∧
+    r2.1.base = [(⟨1, 1⟩, 5)] ∧ r2.1.deltas = [] ∧ r2.1.cache = [(⟨1, 1⟩, some 5)] := by decide
+
+/-- … yet the observations and the final views agree (evaluation, then the theorem's instance). -/
+example :
+    let r1 := runWith natCodec (St.init : St Nat Nat) (exHist.zip schedA)
+    let r2 := runWith natCodec (St.init : St Nat Nat) (exHist.zip schedB)
+    r1.2 = [.id ⟨1, 1⟩, .unit, .unit, .unit, .slab (some 5)] ∧ r2.2 = r1.2 ∧
+    r1.1.view natCodec ⟨1, 1⟩ = some 5 ∧ r2.1.view natCodec ⟨1, 1⟩ = some 5 ∧
+    r1.1.view natCodec ⟨1, 2⟩ = none ∧ r2.1.view natCodec ⟨1, 2⟩ = none := by decide
+example := schedule_independent_outcomes natCodec roundTrip natEnc exHist (by decide) exHist_noTemp
+  schedA schedB rfl rfl
+
+/-- `schedule_independent_ledger`: after a final commit both ledgers hold exactly `1.1 ↦ 5`. -/
+example :
+    let f1 := ((runWith natCodec (St.init : St Nat Nat) (exHist.zip schedA)).1.fastCommit natCodec (fun _ => false)).st
+    let f2 := ((runWith natCodec (St.init : St Nat Nat) (exHist.zip schedB)).1.fastCommit natCodec (fun _ => false)).st
+    f1.base = [(⟨1, 1⟩, 5)] ∧ f2.base = [(⟨1, 1⟩, 5)] := by decide
+example := schedule_independent_ledger natCodec roundTrip natEnc exHist (by decide) exHist_noTemp
+  schedA schedB rfl rfl
+
+/-- `NoTemp` is a necessary hypothesis: a slab stored under the temporary address is forgotten by
+    a reopen, so the read that follows observes the schedule. -/
+example :
+    let hist : List (Op Nat) := [.store ⟨0, 1⟩ 8, .retrieve ⟨0, 1⟩]
+    (runWith natCodec (St.init : St Nat Nat) (hist.zip [[], []])).2 = [.unit, .slab (some 8)] ∧
+    (runWith natCodec (St.init : St Nat Nat) (hist.zip [[], [.commitAndReopen]])).2 = [.unit, .slab none] := by
+  decide
+
+/-- `reload_is_identity` on `exSt` for every kind of maintenance action (the pending store `1.1`,
+    the pending deletion `1.2` of a committed register, the cached `1.3`, the committed `1.4`). -/
+example : ∀ m ∈ [Maint.commit .det [] [], .commit .nondet [] [], .dropCache, .commitAndReopen],
+    ∀ id ∈ [(⟨1, 1⟩ : SlabID), ⟨1, 2⟩, ⟨1, 3⟩, ⟨1, 4⟩],
+      (applyMaint natCodec exSt m).view natCodec id = exSt.view natCodec id := by decide
+example := reload_is_identity natCodec roundTrip exSt inv (noEncodeFailure exSt) .commitAndReopen ⟨1, 2⟩ rfl
+/-- … and the restriction to owned identifiers is necessary for `commitAndReopen`. -/
+example : exSt.view natCodec ⟨0, 1⟩ = some 8 ∧
+    (applyMaint natCodec exSt .commitAndReopen).view natCodec ⟨0, 1⟩ = none := by decide
+
+end NonVacuity
 
 end Atree.C08
